@@ -112,6 +112,7 @@ func mutateReq(r *R, q Req, other []Req) Req {
 }
 
 func (c10) Gen(r *R, tier string) any {
+	allowHugeOriginLists = true
 	observeUnknownAPI = false
 	p := &C10Plan{Cfg: genCfg(r), Debug: r.P(0.4)}
 	if r.P(0.4) {
